@@ -59,7 +59,7 @@ func checkC02(c *Check) {
 	}
 	// ---------- helpers: classify by structure ----------
 	helpers := map[*ssa.Function]*helperInfo{}
-	for _, ci := range callInstrs(h) {
+	for _, ci := range callInstrsDeep(h, 2) {
 		_, callee := calleeOf(ci)
 		if callee == nil || !inModule(callee) || callee.Signature.Recv() == nil || helpers[callee] != nil {
 			continue
@@ -576,7 +576,9 @@ func checkLexical(c *Check) {
 	// symlink targets are normalised for /proc/self with the tracee's pid before use
 	if once := p.Func(rp, "resolveTraceePathOnce"); once != nil {
 		ok := false
-		for _, ci := range callInstrs(once) {
+		// the readlink may sit in the step function or in a helper of it; its result may travel through returns and
+		// φ-nodes, but the first thing done with it is the /proc/self normaliser (with the tracee's pid)
+		for _, ci := range callInstrsDeep(once, 2) {
 			if n, _ := calleeOf(ci); n == "os.Readlink" {
 				v := ci.(ssa.Value)
 				for _, r := range *v.Referrers() {
@@ -584,17 +586,62 @@ func checkLexical(c *Check) {
 					if !isE || ex.Index != 0 {
 						continue
 					}
-					// every use of the target is the normaliser call
-					all := true
-					for _, u := range *ex.Referrers() {
-						if call, isC := u.(*ssa.Call); isC {
-							if _, callee := calleeOf(call); callee != nil && callee.Name() == "normalizeProcMagicPath" && call.Call.Args[0] == ssa.Value(once.Params[0]) {
-								continue
+					nUses := 0
+					var follow func(v ssa.Value, d int) bool
+					follow = func(v ssa.Value, d int) bool {
+						if d > 6 || v.Referrers() == nil {
+							return false
+						}
+						for _, u := range *v.Referrers() {
+							switch x := u.(type) {
+							case *ssa.DebugRef:
+							case *ssa.Phi:
+								if !follow(x, d+1) {
+									return false
+								}
+							case *ssa.Return:
+								// continue at the call sites of this function, on the same result index
+								idx := -1
+								for i, rv := range x.Results {
+									if rv == v {
+										idx = i
+									}
+								}
+								for _, cs := range staticCallSites(x.Parent()) {
+									cv, isV := cs.(ssa.Value)
+									if !isV || cv.Referrers() == nil {
+										return false
+									}
+									if len(x.Results) == 1 {
+										if !follow(cv, d+1) {
+											return false
+										}
+										continue
+									}
+									for _, cr := range *cv.Referrers() {
+										if ce, ok := cr.(*ssa.Extract); ok && ce.Index == idx {
+											if !follow(ce, d+1) {
+												return false
+											}
+										}
+									}
+								}
+							case *ssa.Call:
+								_, callee := calleeOf(x)
+								if callee != nil && callee.Name() == "normalizeProcMagicPath" && len(x.Call.Args) == 2 && x.Call.Args[1] == v {
+									if _, isParam := x.Call.Args[0].(*ssa.Parameter); isParam {
+										nUses++
+										continue
+									}
+								}
+								return false
+							default:
+								return false
 							}
 						}
-						all = false
+						return true
 					}
-					ok = all && len(*ex.Referrers()) > 0
+					ok = follow(ex, 0) && nUses > 0
 				}
 			}
 		}
